@@ -1,4 +1,5 @@
 import FV.Proofs.InitAlloc
+import FV.Proofs.InitAllocDie
 import FV.Props.C18
 /-
   C03 — Initial allocation equals the exact geometric overlap.
@@ -26,9 +27,12 @@ import FV.Props.C18
   * IEEE rounding: the theorems are exact-arithmetic statements (`pySum = Σ`, the clamp `1 < a < 1 + 1e-6 ↦ 1` of the
     repaired code never fires because `Σ_r areaOverlap c r ≤ area c`, `NetOK.cover_le`); at `Float` the model is only
     executed against the implementation (F stream of `harness/props/c03.py`).
-  * The hypotheses `FixedOK`, `Pairwise NoOverlap`, `Inside`, `Σ area = area die` about the cells are conclusions of
-    C01 (die decomposition) and C02/C11/C18 (cutting); they are not re-derived from a die model in this file (the die
-    model belongs to C01); the harness re-checks them on every generated document (`cells_cover`).
+  * The theorems of the first sections take `FixedOK`, `Pairwise NoOverlap`, `Inside`, `Σ area = area die` about the
+    cells as hypotheses.  The last section (`… _on_die`) discharges them from C01 (`FV.C01.die_complete`, `die_sound`)
+    for every `ValidDie` input and every accepted pick sequence, through the adapter stated in
+    `FV/Proofs/InitAllocDie.lean` (`refinableOf out = specialized ++ ground`, `netFixedRects mods` =
+    `netlist.fixed_rectangles()`).  Dies refined first with `split_refinable_regions` are covered by the cutting
+    theorems (`allocated_area_of_dissection`), not by the `_on_die` ones.
 -/
 namespace FV.C03
 open FV FV.Rect FV.InitAlloc
@@ -397,6 +401,123 @@ theorem allocated_area_of_tiling (sqrt : α → α) (εA : α) (iz : Bool) (mods
   have ht := InitAlloc.tiling_overlap die _ hdie hpw hpos hin harea r (hn.shape_nonneg hm r hr)
   rw [List.map_append, List.sum_append] at ht
   linarith
+
+/-! ### composed with C01: no hypothesis on the cells, only a valid die and the netlist side conditions -/
+
+/-- **die_cells_ok**: for a `ValidDie` document (C01) whose fixed rectangles are the netlist's, and ANY accepted pick
+    sequence of the greedy cover, the die is returned and the two lists `create_initial_allocation` starts from —
+    `specialized + ground` and `fixed` — are proper, unflagged resp. the fixed modules' rectangles, satisfy `FixedOK`,
+    and together with the blockages tile the die exactly. -/
+theorem die_cells_ok (sqrt : α → α) (st : Option (α × α)) (doc : Die.YV α) (inp : Die.DieIn α) (mods : List (Module α))
+    (hp : Die.parseDie doc = .ok inp)
+    (hεd : 0 ≤ (Die.mkEps sqrt st inp.W inp.H).1.d) (hεa : 0 ≤ (Die.mkEps sqrt st inp.W inp.H).1.a)
+    (hv : C01.ValidDie (Die.mkEps sqrt st inp.W inp.H).1.d inp (netFixedRects mods)) (picks : List Die.IRect)
+    (hacc : Die.coverAccept ((Die.gridOf (Die.mkEps sqrt st inp.W inp.H).1 inp (netFixedRects mods)).2.length - 1)
+      ((Die.gridOf (Die.mkEps sqrt st inp.W inp.H).1 inp (netFixedRects mods)).1.length - 1)
+      (Die.occ (Die.gridOf (Die.mkEps sqrt st inp.W inp.H).1 inp (netFixedRects mods)).1
+        (Die.gridOf (Die.mkEps sqrt st inp.W inp.H).1 inp (netFixedRects mods)).2
+        (Die.occRects inp (netFixedRects mods))) picks = true)
+    (hn : NetOK sqrt mods) (hrects : ∀ m ∈ mods, m.fixed = true → m.rects ≠ []) :
+    ∃ out, Die.dieModel sqrt st doc (netFixedRects mods) (some picks) =
+        .ok (out, (Die.mkEps sqrt st inp.W inp.H).1, (Die.mkEps sqrt st inp.W inp.H).2) ∧
+      out.fixed = netFixedRects mods ∧ out.blockages = Die.blockOf inp ∧ out.W = inp.W ∧ out.H = inp.H ∧
+      CellsProper (refinableOf out ++ out.fixed) ∧ (∀ c ∈ refinableOf out, c.fixed = false) ∧
+      FixedOK mods (refinableOf out ++ out.fixed) ∧
+      C01.ExactTiling out ∧ out.all = refinableOf out ++ (out.blockages ++ out.fixed) := by
+  obtain ⟨out, hrun, hd⟩ := die_facts sqrt st doc (netFixedRects mods) inp hp hεd hεa hv picks hacc
+  have hfp : ∀ r ∈ netFixedRects mods, 0 < r.w ∧ 0 < r.h := by
+    intro r hr
+    obtain ⟨m, hm, _, hrm⟩ := (mem_netFixedRects mods r).mp hr
+    exact hn.proper m hm r hrm
+  exact ⟨out, hrun, hd.fixed_eq, hd.block_eq, hd.W_eq, hd.H_eq, hd.cellsProper hfp, hd.refinable_unflagged,
+    hd.fixedOK mods hrects, hd.exact, hd.all_eq⟩
+
+/-- **fixed_full_on_die**: `fixed_full` for the cells of a valid die — no hypothesis on the cells. -/
+theorem fixed_full_on_die (sqrt : α → α) (st : Option (α × α)) (doc : Die.YV α) (inp : Die.DieIn α)
+    (mods : List (Module α)) (hp : Die.parseDie doc = .ok inp)
+    (hεd : 0 ≤ (Die.mkEps sqrt st inp.W inp.H).1.d) (hεa : 0 ≤ (Die.mkEps sqrt st inp.W inp.H).1.a)
+    (hv : C01.ValidDie (Die.mkEps sqrt st inp.W inp.H).1.d inp (netFixedRects mods)) (picks : List Die.IRect)
+    (hacc : Die.coverAccept ((Die.gridOf (Die.mkEps sqrt st inp.W inp.H).1 inp (netFixedRects mods)).2.length - 1)
+      ((Die.gridOf (Die.mkEps sqrt st inp.W inp.H).1 inp (netFixedRects mods)).1.length - 1)
+      (Die.occ (Die.gridOf (Die.mkEps sqrt st inp.W inp.H).1 inp (netFixedRects mods)).1
+        (Die.gridOf (Die.mkEps sqrt st inp.W inp.H).1 inp (netFixedRects mods)).2
+        (Die.occRects inp (netFixedRects mods))) picks = true)
+    (hn : NetOK sqrt mods) (hrects : ∀ m ∈ mods, m.fixed = true → m.rects ≠ []) :
+    ∃ out, Die.dieModel sqrt st doc (netFixedRects mods) (some picks) =
+        .ok (out, (Die.mkEps sqrt st inp.W inp.H).1, (Die.mkEps sqrt st inp.W inp.H).2) ∧
+      ∀ (εA : α) (iz : Bool) (A : Allocation α),
+        createInitialAllocation sqrt εA iz mods (refinableOf out) out.fixed = .ok A →
+        ∀ m ∈ mods, m.fixed = true →
+          (∀ r ∈ m.rects, (⟨{ r with fixed := true }, [(m.name, 1)], 0⟩ : Cell α) ∈ A.cells) ∧
+          (∀ cell ∈ A.cells, ∀ r ∈ m.rects, GeoEq cell.rect r →
+            cell.alloc = [(m.name, 1)] ∧ cell.rect.fixed = true ∧ cell.depth = 0) ∧
+          (∀ cell ∈ A.cells, ∀ v, cell.alloc.lookup m.name = some v → 0 < v → ∃ r ∈ m.rects, GeoEq cell.rect r) := by
+  obtain ⟨out, hrun, hfe, _, _, _, hcp, _, hfo, _, _⟩ :=
+    die_cells_ok sqrt st doc inp mods hp hεd hεa hv picks hacc hn hrects
+  refine ⟨out, hrun, ?_⟩
+  intro εA iz A hA m hm hfx
+  obtain ⟨f1, f2, f3⟩ := fixed_full sqrt εA iz mods (refinableOf out) out.fixed A hA hn hcp hfo m hm hfx
+  refine ⟨?_, f2, f3⟩
+  intro r hr
+  have hmem : r ∈ refinableOf out ++ out.fixed := by
+    apply List.mem_append_right
+    rw [hfe]; exact (mem_netFixedRects mods r).mpr ⟨m, hm, hfx, hr⟩
+  exact f1 r hr r hmem ⟨rfl, rfl, rfl, rfl⟩
+
+/-- **allocated_area_on_die**: on a valid die (no tiling hypothesis), the non-fixed cells of the result are exactly
+    the die's refinable regions, and the area allocated to a non-fixed module is the area of its shape inside the die
+    minus what lies on the blockages and on the fixed modules' rectangles — all in terms of the INPUTS. -/
+theorem allocated_area_on_die (sqrt : α → α) (st : Option (α × α)) (doc : Die.YV α) (inp : Die.DieIn α)
+    (mods : List (Module α)) (hp : Die.parseDie doc = .ok inp)
+    (hεd : 0 ≤ (Die.mkEps sqrt st inp.W inp.H).1.d) (hεa : 0 ≤ (Die.mkEps sqrt st inp.W inp.H).1.a)
+    (hv : C01.ValidDie (Die.mkEps sqrt st inp.W inp.H).1.d inp (netFixedRects mods)) (picks : List Die.IRect)
+    (hacc : Die.coverAccept ((Die.gridOf (Die.mkEps sqrt st inp.W inp.H).1 inp (netFixedRects mods)).2.length - 1)
+      ((Die.gridOf (Die.mkEps sqrt st inp.W inp.H).1 inp (netFixedRects mods)).1.length - 1)
+      (Die.occ (Die.gridOf (Die.mkEps sqrt st inp.W inp.H).1 inp (netFixedRects mods)).1
+        (Die.gridOf (Die.mkEps sqrt st inp.W inp.H).1 inp (netFixedRects mods)).2
+        (Die.occRects inp (netFixedRects mods))) picks = true)
+    (hn : NetOK sqrt mods) (hrects : ∀ m ∈ mods, m.fixed = true → m.rects ≠ []) :
+    ∃ out, Die.dieModel sqrt st doc (netFixedRects mods) (some picks) =
+        .ok (out, (Die.mkEps sqrt st inp.W inp.H).1, (Die.mkEps sqrt st inp.W inp.H).2) ∧
+      ∀ (εA : α) (iz : Bool) (A : Allocation α),
+        createInitialAllocation sqrt εA iz mods (refinableOf out) out.fixed = .ok A →
+        (A.cells.filter fun c => !c.rect.fixed).map (·.rect) = refinableOf out ∧
+        ∀ m ∈ mods, m.fixed = false →
+          allocatedSum A.cells m.name =
+            ((shapeOf sqrt m).map fun r => (Die.dieRect inp.W inp.H).areaOverlap r -
+              ((Die.blockOf inp ++ netFixedRects mods).map fun b => b.areaOverlap r).sum).sum := by
+  obtain ⟨out, hrun, hfe, hbe, hW, hH, hcp, hunf, hfo, hex, hall⟩ :=
+    die_cells_ok sqrt st doc inp mods hp hεd hεa hv picks hacc hn hrects
+  obtain ⟨_, _, _, _, hWp, hHp, _⟩ := C01.parseDie_ok doc inp hp
+  refine ⟨out, hrun, ?_⟩
+  intro εA iz A hA
+  have hnf := nonfixed_rects_eq sqrt εA iz mods (refinableOf out) out.fixed A hA hn hcp hfo hfe hunf
+  refine ⟨hnf, ?_⟩
+  intro m hm hmf
+  have hpos : ∀ c ∈ out.all, 0 ≤ c.w ∧ 0 ≤ c.h := by
+    intro c hc
+    rw [hall] at hc
+    rcases List.mem_append.mp hc with hc | hc
+    · have := hcp c (List.mem_append_left _ hc); exact ⟨le_of_lt this.1, le_of_lt this.2⟩
+    · rcases List.mem_append.mp hc with hc | hc
+      · rw [hbe] at hc
+        have hmem : c ∈ Die.occRects inp (netFixedRects mods) :=
+          List.mem_append_left _ (List.mem_append_right _ hc)
+        have := hv.pos c hmem; exact ⟨le_of_lt this.1, le_of_lt this.2⟩
+      · have := hcp c (List.mem_append_right _ hc); exact ⟨le_of_lt this.1, le_of_lt this.2⟩
+  have hres := allocated_area_of_tiling sqrt εA iz mods (refinableOf out) out.fixed A hA hn hcp m hm hmf
+    (Die.dieRect inp.W inp.H) (out.blockages ++ out.fixed)
+    (by simp only [Die.dieRect]; exact ⟨le_of_lt hWp, le_of_lt hHp⟩)
+    (by rw [hnf, ← hall]; exact hex.disjoint)
+    (by rw [hnf, ← hall]; exact hpos)
+    (by
+      rw [hnf, ← hall]
+      intro c hc
+      have := hex.inside c hc
+      rw [hW, hH] at this
+      exact inside_dieRect inp.W inp.H c this)
+    (by rw [hnf, ← hall, hex.area, hW, hH]; rfl)
+  rw [hres, hbe, hfe]
 
 /-! ### non-vacuity: a concrete die + netlist (executed at `Rat`) -/
 
